@@ -220,6 +220,16 @@ def run_journal(j, rng, res, case=None):
         rng.shuffle(ents) if rng.random() < 0.3 else None
         case = {'entries': ents, 'windows': None}
     log = []
+    generating = case['windows'] is None
+    n_ent = len(case['entries'])
+    # queries are also asked *between* appends (a reader polls while the pipeline keeps appending): an answer must
+    # reflect every append made so far, also one that rewrote an existing <run id>.json of a day already queried
+    if generating:
+        mid_at = set(rng.sample(range(1, n_ent), min(n_ent - 1, rng.choice([0, 2, 4, 8])))) if n_ent > 1 else set()
+        asked = []
+    else:
+        mid_at = {w['at'] for w in case['windows'] if w.get('at') is not None and w['at'] < n_ent}
+        asked = None
     for ent in case['entries']:
         when = datetime.datetime.fromisoformat(ent['when'])
         j.complete(when, ent['task'], ent['target'], ent['runid'], ent['status'], ent['via_schedule'])
@@ -231,14 +241,36 @@ def run_journal(j, rng, res, case=None):
             bad.append(('append-keeps-everything', f'after {len(log)} appends the journal files hold {len(stored)} entries; '
                         f'missing={[x for x in want if x not in stored][:2]} extra={[x for x in stored if x not in want][:2]}', dict(case, windows=[])))
             return bad, case
+        if len(log) in mid_at:
+            cur = read_journal(dbs)
+            if generating:
+                tms = sorted(parse(e['timing']['completed']) for e in cur)
+                wins = [dict(gen_window(rng, tms), at=len(log)) for _ in range(rng.choice([1, 2, 3]))]
+                asked.extend(wins)
+            else:
+                wins = [w for w in case['windows'] if w.get('at') == len(log)]
+            for win in wins:
+                res.count('mid_history_queries')
+                _ask(j, win, cur, case, res, bad, asked if generating else case['windows'])
     stored = read_journal(dbs)
     times = sorted(parse(e['timing']['completed']) for e in stored)
     if case['windows'] is None:
         wins = []
         for _ in range(rng.choice([20, 40, 60])):
             wins.append(gen_window(rng, times))
-        case['windows'] = wins
+        case['windows'] = asked + wins
     for win in case['windows']:
+        if win.get('at') is not None and win['at'] < n_ent:
+            continue
+        _ask(j, win, stored, case, res, bad, case['windows'])
+    return bad, case
+
+
+def _ask(j, win, stored, case, res, bad, history):
+    '''one query against the brute-force filter of what is stored now; history = every window of this journal in
+    the order asked (a witness keeps the mid-history queries that came first: code under test may cache answers)'''
+    # pylint: disable=too-many-locals,too-many-branches,too-many-arguments,too-many-positional-arguments
+    if True:  # pylint: disable=using-constant-test
         after = datetime.datetime.fromisoformat(win['after']) if win.get('after') else None
         before = datetime.datetime.fromisoformat(win['before']) if win.get('before') else None
         limit = win.get('limit')
@@ -265,8 +297,8 @@ def run_journal(j, rng, res, case=None):
             else:
                 got = j.chron.find(after=after, before=before, limit=limit, succeeded=succ)
         except Exception as e:  # pylint: disable=broad-exception-caught
-            bad.append(('query-answers', f'find({win}) raised {type(e).__name__}: {e}', dict(case, windows=[win])))
-            continue
+            bad.append(('query-answers', f'find({win}) raised {type(e).__name__}: {e}', dict(case, windows=_upto(history, win))))
+            return
         why = compare(got, want_all, eff_limit)
         # non-trivial: the upper bound's time of day cuts into an earlier day, or the lower bound splits a day
         nt = False
@@ -283,8 +315,12 @@ def run_journal(j, rng, res, case=None):
             mech = None
             bad.append(('query-exact-window' + ('-api' if win.get('api') else ''),
                         f'{"fe.api.schedule" if win.get("api") else "chronicle.find"}(after={after}, before={before}, limit={limit}, '
-                        f'succeeded={succ}) with now={now}: {why}', dict(case, windows=[win])))
-    return bad, case
+                        f'succeeded={succ}) with now={now}: {why}', dict(case, windows=_upto(history, win))))
+
+
+def _upto(history, win):
+    mids = [w for w in history if w.get('at') is not None and w is not win and (win.get('at') is None or w['at'] <= win['at'])]
+    return mids + [win]
 
 
 def gen_window(rng, times):
